@@ -19,36 +19,57 @@ stays on the object; whether `predict` looks at it is covered by the dynamic ref
 namespace Ska.C13
 open Ska.Effects
 
-/-- attributes a summary certainly writes (bit set) -/
-def written (S : Summary) : Nat :=
-  match (histCheck S.params S.body 0).2 with
-  | some W => W
-  | none => 0
-
 /-- **`fit` is history free.**  If the summary of `fit` never looks at a non-parameter attribute of
 `self` before having written it in the same call (`HistoryFree`), then for *any* two objects that
 agree on the constructor parameters — in particular an object with an arbitrary history of earlier
 `fit` / `predict` / `query` calls and a fresh clone — and the same arguments (`F`): both calls read
 exactly the same values, take the same branches, compute the same values (hence return the same
-thing or raise the same exception) and leave the same value in every attribute `fit` writes:
+thing or raise the same exception) and leave the same value in every attribute `fit` may write
+(every such attribute is certainly written, so nothing of an earlier fit survives in them):
 `fit (anyHistory o) d = fit (fresh o) d`. -/
+theorem historyFree_check {S : Summary} (hh : HistoryFree S = true) :
+    (histCheck S.params S.body 0).1 = true := by
+  unfold HistoryFree at hh
+  cases h : histCheck S.params S.body 0 with
+  | mk ok r =>
+    rw [h] at hh
+    cases r with
+    | none => exact hh
+    | some W => simp only [Bool.and_eq_true] at hh; exact hh.1
+
+/-- every attribute `fit` may write is among the certainly written ones -/
+theorem historyFree_complete {S : Summary} (hh : HistoryFree S = true) (W : Nat)
+    (hW : (histCheck S.params S.body 0).2 = some W) (a : Nat)
+    (ha : (mayWrite S.body).testBit a = true) : W.testBit a = true := by
+  unfold HistoryFree at hh
+  cases h : histCheck S.params S.body 0 with
+  | mk ok r =>
+    rw [h] at hh hW
+    simp only at hW
+    subst hW
+    simp only [Bool.and_eq_true, beq_iff_eq] at hh
+    have := congrArg (fun n => n.testBit a) hh.2
+    simp only [Nat.testBit_and, ha, Bool.true_and] at this
+    exact this
+
 theorem fit_history_free (S : Summary) (hh : HistoryFree S = true) (F : HOra) (o o' : Nat → Val)
     (hparams : ∀ a, S.params.contains a = true → o a = o' a) :
     (hRun F S.body ⟨o, [], 0, false⟩).log = (hRun F S.body ⟨o', [], 0, false⟩).log ∧
     (hRun F S.body ⟨o, [], 0, false⟩).dead = (hRun F S.body ⟨o', [], 0, false⟩).dead ∧
     ((hRun F S.body ⟨o, [], 0, false⟩).dead = false →
-      ∀ a, (S.params.contains a || (written S).testBit a) = true →
+      ∀ a, (S.params.contains a || (mayWrite S.body).testBit a) = true →
         (hRun F S.body ⟨o, [], 0, false⟩).obj a = (hRun F S.body ⟨o', [], 0, false⟩).obj a) := by
   have h0 : HAgree S.params 0 ⟨o, [], 0, false⟩ ⟨o', [], 0, false⟩ := by
     refine ⟨fun a ha => hparams a ?_, rfl, rfl⟩
     simpa using ha
-  have := hist_sound F S.params S.body 0 _ _ h0 rfl rfl hh
+  have := hist_sound F S.params S.body 0 _ _ h0 rfl rfl (historyFree_check hh)
   refine ⟨this.1, this.2.2.1, fun hlive a ha => ?_⟩
   obtain ⟨W', hW', hag⟩ := this.2.2.2 hlive
   apply hag.1 a
-  unfold written at ha
-  rw [hW'] at ha
-  exact ha
+  simp only [Bool.or_eq_true] at ha ⊢
+  rcases ha with ha | ha
+  · exact Or.inl ha
+  · exact Or.inr (historyFree_complete hh W' hW' a ha)
 
 /-- **C13, combined statement** (`frame_fit_history_free` of DESIGN §4): a `fit` whose summary
 neither reads a fitted attribute before writing it nor writes / mutates a parameter (i) computes
@@ -59,7 +80,7 @@ theorem frame_fit_history_free (S : Summary) (hh : HistoryFree S = true) (hok : 
       (hRun F S.body ⟨o, [], 0, false⟩).log = (hRun F S.body ⟨o', [], 0, false⟩).log ∧
       (hRun F S.body ⟨o, [], 0, false⟩).dead = (hRun F S.body ⟨o', [], 0, false⟩).dead ∧
       ((hRun F S.body ⟨o, [], 0, false⟩).dead = false →
-        ∀ a, (S.params.contains a || (written S).testBit a) = true →
+        ∀ a, (S.params.contains a || (mayWrite S.body).testBit a) = true →
           (hRun F S.body ⟨o, [], 0, false⟩).obj a = (hRun F S.body ⟨o', [], 0, false⟩).obj a)) ∧
     (∀ (C : Ctx), C.WF → C.ps = S.params → ∀ (inner : Nat → Heap → Heap), InnerOK C inner →
       ∀ (ω : Ora) (s : St), s.dead = false → ∀ (D₀ : Nat → Prop), C05.OwnInv S C s.h D₀ →
